@@ -20,37 +20,39 @@ Proof.
   - exact He.
 Qed.
 
-Lemma safe_handlers_sound : forall ok hs rest e,
+Lemma safe_handlers_sound : forall ok hs rest e atrecv,
   is_exception e = true -> safe_handlers ok hs rest = true ->
-  match first_match hs e with
+  match first_match hs e atrecv with
   | Some act => if propagates act then rest = true else ok act = true
   | None => rest = true
   end.
 Proof.
-  intros ok hs rest e He. induction hs as [|[cs act] hs IH]; simpl; intros H.
+  intros ok hs rest e atrecv He. induction hs as [|[[cs g] act] hs IH]; simpl; intros H.
   - exact H.
-  - destruct (is_any e cs) eqn:Hm.
+  - destruct (is_any e cs && guard_ok g atrecv) eqn:Hm.
     + destruct (propagates act).
       * apply andb_true_iff in H. tauto.
       * apply andb_true_iff in H. tauto.
     + destruct (propagates act).
       * apply andb_true_iff in H. apply IH. tauto.
       * apply andb_true_iff in H. destruct H as [_ H].
-        destruct (mem "Exception" cs) eqn:Hc.
-        -- rewrite (catch_all_matches e cs He Hc) in Hm. discriminate.
+        destruct (mem "Exception" cs && guard_ok g false && guard_ok g true) eqn:Hc.
+        -- apply andb_true_iff in Hc. destruct Hc as [Hc Hg1]. apply andb_true_iff in Hc. destruct Hc as [Hc Hg0].
+           rewrite (catch_all_matches e cs He Hc) in Hm.
+           destruct atrecv; [rewrite Hg1 in Hm | rewrite Hg0 in Hm]; discriminate.
         -- apply IH. exact H.
 Qed.
 
-Lemma safe_in_sound : forall T n ok f start e,
+Lemma safe_in_sound : forall T n ok f start atrecv e,
   is_exception e = true -> safe_in T n ok f start = true ->
-  exists ord act, route_in T n f start e = Caught ord act /\ ok act = true.
+  exists ord act, route_in T n f start atrecv e = Caught ord act /\ ok act = true.
 Proof.
-  intros T n ok f. induction n as [|n IH]; intros start e He H; simpl in *.
+  intros T n ok f. induction n as [|n IH]; intros start atrecv e He H; simpl in *.
   - discriminate.
   - destruct start as [ord|]; [|discriminate].
     destruct (find_site T f ord) as [s|]; [|discriminate].
-    pose proof (safe_handlers_sound ok (s_handlers s) _ e He H) as Hs.
-    destruct (first_match (s_handlers s) e) as [act|].
+    pose proof (safe_handlers_sound ok (s_handlers s) _ e atrecv He H) as Hs.
+    destruct (first_match (s_handlers s) e atrecv) as [act|].
     + destruct (propagates act).
       * apply IH; assumption.
       * exists ord, act. split; [reflexivity | exact Hs].
@@ -60,7 +62,7 @@ Qed.
 Lemma safe_sound : forall T ok f start e,
   is_exception e = true -> safe T ok f start = true ->
   exists ord act, route T f start e = Caught ord act /\ ok act = true.
-Proof. intros. unfold route, safe in *. eapply safe_in_sound; eassumption. Qed.
+Proof. intros. unfold route, route_at, safe in *. eapply safe_in_sound; eassumption. Qed.
 
 Lemma ok_at_not_reply : forall f, ok_at f AReply = false.
 Proof. destruct f; reflexivity. Qed.
@@ -105,7 +107,7 @@ Proof.
   - inversion H; subst. split; [reflexivity | intros; discriminate].
   - destruct (wf_cons _ _ Hwf) as [He Hfs].
     destruct (fn_eqb (f_fn f) FHandshake).
-    + destruct (route T FHandshake (f_site f) (f_exc f)) as [ord act|].
+    + destruct (route_at T FHandshake (f_site f) (f_recv f) (f_exc f)) as [ord act|].
       * destruct act; try (inversion H; subst; split; [exact Hfs | intros e Hx; inversion Hx; subst; try exact He; discriminate]).
         eapply IH; eassumption.
       * inversion H; subst. split; [exact Hfs | intros e Hx; inversion Hx; subst; exact He].
@@ -120,7 +122,7 @@ Proof.
   - inversion H; subst. split; [reflexivity | intros; discriminate].
   - destruct (wf_cons _ _ Hwf) as [He Hfs].
     destruct (fn_eqb (f_fn f) FSendExc).
-    + destruct (route T FSendExc (f_site f) (f_exc f)) as [ord act|].
+    + destruct (route_at T FSendExc (f_site f) (f_recv f) (f_exc f)) as [ord act|].
       * destruct act; try (inversion H; subst; split; [exact Hfs | intros e Hx; inversion Hx; subst; try exact He; discriminate]).
         eapply IH; eassumption.
       * inversion H; subst. split; [exact Hfs | intros e Hx; inversion Hx; subst; exact He].
@@ -135,7 +137,7 @@ Proof.
   - inversion H; subst. split; [reflexivity | intros; discriminate].
   - destruct (wf_cons _ _ Hwf) as [He Hfs].
     destruct (fn_eqb (f_fn f) FHandleRequest).
-    + destruct (route T FHandleRequest (f_site f) (f_exc f)) as [ord act|].
+    + destruct (route_at T FHandleRequest (f_site f) (f_recv f) (f_exc f)) as [ord act|].
       * destruct act;
           try (eapply IH; eassumption);
           try (inversion H; subst; split; [exact Hfs | intros e Hx; inversion Hx; subst; try exact He; discriminate]).
